@@ -12,6 +12,7 @@ import (
 	"io"
 	"os"
 	"path/filepath"
+	"strings"
 )
 
 // A Ruleset is the result of reading, parsing, and compiling a
@@ -97,6 +98,13 @@ func (r *Ruleset) Excludes(path string) (ExcludesResult, error) {
 		if match {
 			foundMatch = !rule.negated
 			dominating = foundMatch && !rule.negationsAfter
+			// Only a rule that covers everything below what it matched (a
+			// pattern ending in "**", e.g. from a trailing slash) can justify
+			// skipping a whole directory: "dir/*" matches "dir/" too, but says
+			// nothing about "dir/sub/file".
+			if !strings.HasSuffix(rule.val, "**") {
+				dominating = false
+			}
 		}
 	}
 	return ExcludesResult{
